@@ -354,4 +354,45 @@ pub fn run(ctx: &Ctx) {
             ctx.sample(json!({"type": "Plain", "value": show(&p), "term": erltf_serde::to_term(&p).map(|t| format!("{}", t).chars().take(160).collect::<String>()).unwrap_or_default()}));
         }
     }
+
+    // history independence of the serde layer: round trips of ordinary values before and after calls that
+    // fail (a value the format cannot carry) or are unusual
+    {
+        let serde_probe = || -> Vec<(String, String)> {
+            let mut out: Vec<(String, String)> = Vec::new();
+            let mut add = |name: &str, f: &dyn Fn() -> String| out.push((name.to_string(), guarded(f).unwrap_or_else(|p| format!("PANIC {}", p))));
+            add("u64 via bytes", &|| format!("{:?}", erltf_serde::to_bytes(&u64::MAX).map(|b| erltf_serde::from_bytes::<u64>(&b).map_err(|e| e.to_string()))));
+            add("string via bytes", &|| format!("{:?}", erltf_serde::to_bytes(&"gr\u{fc}\u{df}e".to_string()).map(|b| erltf_serde::from_bytes::<String>(&b).map_err(|e| e.to_string()))));
+            add("vec of options via bytes", &|| {
+                let v: Vec<Option<i64>> = vec![Some(i64::MIN), None, Some(7)];
+                format!("{:?}", erltf_serde::to_bytes(&v).map(|b| (b.len(), erltf_serde::from_bytes::<Vec<Option<i64>>>(&b).map_err(|e| e.to_string()))))
+            });
+            add("tuple via term", &|| format!("{:?}", erltf_serde::to_term(&(1u8, "x".to_string(), 2.5f64)).map(|t| erltf_serde::from_term::<(u8, String, f64)>(&t).map_err(|e| e.to_string()))));
+            add("map via bytes", &|| {
+                let m: std::collections::BTreeMap<i64, String> = [(1, "a".to_string()), (-9, "b".to_string())].into_iter().collect();
+                format!("{:?}", erltf_serde::to_bytes(&m).map(|b| erltf_serde::from_bytes::<std::collections::BTreeMap<i64, String>>(&b).map_err(|e| e.to_string())))
+            });
+            out.extend(super::disturb::standard_probe().into_iter().filter(|(n, _)| n.starts_with("encode")));
+            out
+        };
+        // a serde-level value the format cannot carry, in the middle of a compound value
+        let before = serde_probe();
+        let long = "z".repeat(70_000);
+        for _ in 0..3 {
+            let _ = guarded(|| erltf_serde::to_bytes(&(42u8, erltf_serde::elixir::AtomValue(&long))).is_err());
+            let _ = guarded(|| erltf_serde::to_term(&(42u8, erltf_serde::elixir::AtomValue(&long))).is_err());
+        }
+        let after = serde_probe();
+        ctx.eval(after.len() as u64);
+        ctx.class("history-independence/serde-refused-value");
+        if let Some((b, a)) = before.iter().zip(after.iter()).find(|(b, a)| b.1 != a.1) {
+            ctx.viol(
+                "C15:history-dependent:serde-refused-value",
+                "an ordinary round trip answers differently after a value was refused",
+                json!({"call": b.0, "before": b.1.chars().take(160).collect::<String>(), "after": a.1.chars().take(160).collect::<String>()}),
+            );
+        }
+        let mut hrng = Rng::derive(ctx.seed, 15, 99);
+        super::disturb::probe_history_independence(ctx, "C15", &mut hrng, ctx.pick(16, 60), &serde_probe);
+    }
 }
